@@ -55,7 +55,10 @@ class C12:
             "(shared_step) POMO or SymNCO, phase train/val/test, 1-4 TSP instances, num_augment 1-4, num_starts "
             "2-5, stub policy; (am) real AttentionModel multi-start / multi-sample, batched vs solo; (antsystem) "
             "rl4co's AntSystem search (DeepACO/GFACS inference) on a seeded heuristic matrix, 2-4 TSP/CVRP instances, "
-            "3-6 ants x 2-5 iterations, best-of-all-rollouts kept per instance across iterations.  "
+            "3-6 ants x 2-5 iterations, best-of-all-rollouts kept per instance across iterations; (nar) the real "
+            "non-autoregressive decoder behind a stub heatmap encoder, 2-3 multi-start calls on one policy object "
+            "whose expanded batches have the same number of rows but different (B, k): every row's logits are its "
+            "own instance's heatmap row.  "
             "Non-trivial = replication factor >= 2 (or nested factors); distinct = distinct event-log digest.")
     components_real = ["rl4co.utils.ops (batchify, unbatchify, unbatchify_and_gather, gather_by_index, "
                        "select_start_nodes, get_num_starts, sample_n_random_actions)", "PDPEnv / MTVRPEnv / "
@@ -93,6 +96,8 @@ class C12:
             return _plan_ops(rc)
         if u < 0.17 and any(e in only for e in ("tsp", "cvrp")):
             return _plan_antsystem(rc, st, rc.choice([e for e in ("tsp", "cvrp") if e in only]))
+        if u < 0.20 and any(e in only for e in ("tsp", "cvrp")):
+            return _plan_nar(rc, st, rc.choice([e for e in ("tsp", "cvrp") if e in only]))
         if u < 0.24:
             return _plan_shared_step(rc, st)
         if u < 0.36:
@@ -165,6 +170,8 @@ class C12:
             return _exec_am(run)
         if sc == "antsystem":
             return _exec_antsystem(run)
+        if sc == "nar":
+            return _exec_nar(run)
         raise HarnessError(f"unknown scenario {sc}")
 
 
@@ -1277,3 +1284,73 @@ def _exec_antsystem(run):
         run.probe("antsystem_improved_in_later_iteration")
         run.nontrivial = True
     run.summary = {"reward": [float(x) for x in reward.tolist()]}
+
+
+# --------------------------------------------------------------------------------------------------
+# non-autoregressive decoder: heatmap row of every replicated rollout
+# --------------------------------------------------------------------------------------------------
+def _plan_nar(rc, st, name):
+    n = rc.randint(5, 7)
+    cfg = {"env": name, "n": n, "kw": {}, "gen": {"num_loc": n}}
+    env = E.make_env(cfg)
+    # two calls on one policy object whose replicated batches have the SAME number of rows but different batch
+    # sizes (6 = 2x3 = 3x2, 12 = 2x6 = 3x4 = 4x3 ...), then possibly a third
+    rows_total = rc.choice([6, 12])
+    pairs = [(b, rows_total // b) for b in (2, 3, 4, 6) if rows_total % b == 0 and 2 <= rows_total // b <= n - 1]
+    rc.shuffle(pairs)
+    calls = pairs[: rc.randint(2, min(3, len(pairs)))]
+    rows = E.gen_rows(env, cfg, max(b for b, _ in calls) * len(calls), st.torch_seed("instances"))
+    return {"scenario": "nar", "cfg": cfg, "instances": [E.enc_row(r) for r in rows], "calls": calls,
+            "mode": rc.choice(["multistart_sampling", "multistart_greedy"]), "policy_seed": rc.randrange(1 << 30),
+            "torch_seed": rc.randrange(1 << 30)}
+
+
+def _exec_nar(run):
+    """rl4co's NonAutoregressiveDecoder under multi-start: row r of the k-fold expanded state reads the heatmap of
+    instance r mod B -- on every call of the same policy object, whatever (B, k) earlier calls used."""
+    plan = run.plan
+    cfg = plan["cfg"]
+    name = cfg["env"]
+    scope = f"nar:{name}"
+    rows = [E.dec_row(r) for r in plan["instances"]]
+    with run.guard(scope, "construct env", promise=False):
+        env = E.make_env(cfg)
+    with run.guard(scope, "construct NonAutoregressivePolicy", promise=False):
+        pol = P.make_nar_policy(name, plan["policy_seed"]).eval()
+    at = 0
+    for ci, (B, k) in enumerate(plan["calls"]):
+        chunk = rows[at:at + B]
+        at += B
+        with run.guard(scope, "env.reset", promise=False):
+            td = E.reset(env, cfg, chunk)
+        with torch.no_grad():
+            heat = pol.encoder(td)[0].detach()  # [B, N, N]
+        torch.manual_seed(plan["torch_seed"] + ci)
+        with ProcessTap() as tap:
+            with run.guard(scope, f"policy forward decode_type={plan['mode']}", B=B, k=k, call=ci):
+                out = pol(td.clone(), env, phase="test", decode_type=plan["mode"], num_starts=k, return_actions=True)
+        acts = out["actions"]
+        run.tick(len(tap.records))
+        if acts.shape[0] != B * k:
+            run.violate(scope, "row_instance", f"call {ci}: {acts.shape[0]} rollouts for {B} instances x {k} starts",
+                        constraint="count", B=B, k=k, call=ci)
+            raise StopRun()
+        # step t (t >= 1) scores the move after action t-1: logits of row r = heat[r mod B, action_{t-1}[r], :]
+        for t, rec in enumerate(tap.records, start=1):
+            if t >= acts.shape[1] or rec.logits.shape[0] != B * k:
+                continue
+            prev = acts[:, t - 1]
+            for r in range(B * k):
+                want = heat[r % B, int(prev[r])]
+                if not torch.allclose(rec.logits[r], want, rtol=1e-5, atol=1e-6):
+                    whose = [b for b in range(B) if torch.allclose(rec.logits[r], heat[b, int(prev[r])], rtol=1e-5, atol=1e-6)]
+                    run.violate(scope, "row_instance", f"call {ci} (B={B}, k={k}) step {t}: rollout row {r} is scored with "
+                                f"the heatmap of instance {whose[0] if whose else '?'}, it belongs to instance {r % B}",
+                                constraint="heatmap_row", B=B, k=k, call=ci, row=r, step=t,
+                                earlier_calls=[list(c) for c in plan["calls"][:ci]])
+                    raise StopRun()
+        run.log.add("nar", ci, B, k, [int(x) for x in acts[:, 0].tolist()])
+        run.state("nar", name, B, k)
+    run.probe("nar_rows_checked")
+    run.fault("policy_reuse", len(plan["calls"]))
+    run.nontrivial = True
